@@ -62,6 +62,7 @@ type Case struct {
 	Nodes    []Node   `json:"nodes"` // layered order; the last one is END (id 1)
 	Branches []Branch `json:"branches,omitempty"`
 	Entry    string   `json:"entry,omitempty"` // "" = Invoke; "stream" = Stream, the chunks merged by key
+	MaxSteps int      `json:"max_steps,omitempty"` // pregel only: compose.WithMaxRunSteps; > 0 marks a case whose graph may have cycles (a node may run in several steps)
 	Seeds    []uint64 `json:"seeds"` // one run per delay seed
 	Traced   int      `json:"traced"` // the first Traced runs record the protocol trace
 }
@@ -310,6 +311,9 @@ func build(c *Case) *built {
 			var opts []compose.GraphCompileOption
 			if c.Mode == "dag" {
 				opts = append(opts, compose.WithNodeTriggerMode(compose.AllPredecessor))
+			}
+			if c.Mode == "pregel" && c.MaxSteps > 0 {
+				opts = append(opts, compose.WithMaxRunSteps(c.MaxSteps))
 			}
 			var r compose.Runnable[map[string]any, map[string]any]
 			r, err = g.Compile(ctx, opts...)
@@ -728,6 +732,22 @@ func (engine) Generate(r *lib.Rng, tier string, i int) any {
 			c.Branches = append(c.Branches, Branch{From: from, Ends: ends, Sel: sel})
 		}
 	}
+	// any-predecessor graphs, one in three: a step limit and one or two back edges (a node of a later or
+	// the same layer feeds a node of an earlier layer): nodes run again in later steps with other
+	// inputs, the task manager sees the same node key several times, the run ends with END's value or
+	// by exceeding the step limit
+	if c.Mode == "pregel" && r.Chance(1, 3) {
+		c.MaxSteps = r.Range(2, L+3)
+		for k := r.Range(1, 2); k > 0; k-- {
+			i := r.Intn(L)
+			j := i + r.Intn(L-i)
+			to := layers[i][r.Intn(len(layers[i]))]
+			from := layers[j][r.Intn(len(layers[j]))]
+			if from != to {
+				addPred(c, to, from)
+			}
+		}
+	}
 	b := build0(c)
 	// one case in four: state handlers (pre-processor at submit, post-processor at collection) on a third
 	// of the nodes each
@@ -784,8 +804,8 @@ func (engine) Generate(r *lib.Rng, tier string, i int) any {
 		}
 	}
 	// a state pre-handler that fails (submit returns before anything of that step is started): one
-	// handlers case in six, instead of the other failures; such cases are outside the Coq models
-	if handlers && r.Chance(1, 6) {
+	// handlers case in four, instead of the other failures; such cases are outside the Coq models
+	if handlers && r.Chance(1, 4) {
 		for k := range c.Nodes {
 			c.Nodes[k].Fail = 0
 		}
@@ -1036,8 +1056,20 @@ func coqTrace(b *built, evs []compose.VerifC03Event) string {
 		}
 		return "BOk" // also Fail == 3: the body succeeds, the post-handler fails after the hand-off
 	}
+	// a node of a cyclic (any-predecessor) graph runs in several steps: the task of its k-th submission
+	// has the key node + 64*k (a node is never in flight twice at the same time in batch mode, so the
+	// other events of a key belong to its latest submission)
+	subs := map[uint64]uint64{}
 	for _, e := range evs {
-		id, _ := nodeNum(e.Key)
+		nid, _ := nodeNum(e.Key)
+		if e.Kind == "spawn" || e.Kind == "sync" {
+			subs[nid]++
+		}
+		id := nid
+		if subs[nid] > 1 {
+			id = nid + 64*(subs[nid]-1)
+		}
+		bres := func(uint64) string { return bres(nid) }
 		switch e.Kind {
 		case "spawn":
 			s = append(s, fmt.Sprintf("EvSpawn %d %s", id, bres(id)))
@@ -1334,17 +1366,20 @@ func (engine) Run(ci any) lib.Result {
 	switch {
 	case b.preFail:
 		// a failing state pre-handler is outside the order-side models: only the protocol traces go to Coq
-		res.CoqTerm = fmt.Sprintf("mkcase %d [] [] [%s] [%s]", modeN, strings.Join(obsS, ";"), strings.Join(traces, ";\n  "))
+		res.CoqTerm = fmt.Sprintf("mkcase %d 0%%nat [] [] [%s] [%s]", modeN, strings.Join(obsS, ";"), strings.Join(traces, ";\n  "))
 		res.Tags = append(res.Tags, "failing:pre-handler")
 	case len(c.Branches) == 0:
-		res.CoqTerm = fmt.Sprintf("mkcase %d %s [] [%s] [%s]", modeN, c.coqGraph(), strings.Join(obsS, ";"), strings.Join(traces, ";\n  "))
+		res.CoqTerm = fmt.Sprintf("mkcase %d %d%%nat %s [] [%s] [%s]", modeN, c.MaxSteps, c.coqGraph(), strings.Join(obsS, ";"), strings.Join(traces, ";\n  "))
+		if c.MaxSteps > 0 {
+			res.Tags = append(res.Tags, "cyclic:yes")
+		}
 	case c.Mode == "eager":
 		// Workflow with branches: Model/EagerSkip.v
-		res.CoqTerm = fmt.Sprintf("mkcase %d %s %s [%s] [%s]", modeN, c.coqGraph(), c.coqBranches(), strings.Join(obsS, ";"), strings.Join(traces, ";\n  "))
+		res.CoqTerm = fmt.Sprintf("mkcase %d 0%%nat %s %s [%s] [%s]", modeN, c.coqGraph(), c.coqBranches(), strings.Join(obsS, ";"), strings.Join(traces, ";\n  "))
 		res.Tags = append(res.Tags, fmt.Sprintf("branches:%d", len(c.Branches)))
 	default:
 		// batch mode with branches is outside the order-side models: only the protocol traces go to Coq
-		res.CoqTerm = fmt.Sprintf("mkcase %d [] [] [%s] [%s]", modeN, strings.Join(obsS, ";"), strings.Join(traces, ";\n  "))
+		res.CoqTerm = fmt.Sprintf("mkcase %d 0%%nat [] [] [%s] [%s]", modeN, strings.Join(obsS, ";"), strings.Join(traces, ";\n  "))
 		res.Tags = append(res.Tags, fmt.Sprintf("branches:%d", len(c.Branches)))
 	}
 	return res
